@@ -212,6 +212,17 @@ func (env *SpecEnv) eval(x Expr) Val {
 	case EIdent:
 		return env.ident(x.Name)
 	case EUn:
+		if x.Op == "&" {
+			// address of a heap-allocated local variable
+			if id, ok := x.X.(EIdent); ok && env.fr != nil {
+				for _, a := range env.fr.locals[id.Name] {
+					if pv, ok := env.fr.vals[a]; ok && pv.T != "" {
+						return Val{T: pv.T, S: sInt, GoT: a.Type()}
+					}
+				}
+			}
+			return env.fail("cannot take the address of %s", exprString(x.X))
+		}
 		v := env.eval(x.X)
 		switch x.Op {
 		case "!":
